@@ -398,6 +398,30 @@ func rewrite(doc []byte) (interface{}, error) {
 	return rw(v), nil
 }
 
+// timesOf: every timestamp reachable in a payload value (document order of the Go fields), as day / second of the UTC
+// instant - what the value says, independently of how its document is written
+func timesOf(v reflect.Value, out *[]interface{}) {
+	switch {
+	case v.Type() == tTime:
+		u := utcVal(time.Time(v.Interface().(backend.ISO8601Time)).UTC())
+		*out = append(*out, M{"d": u["d"], "s": u["s"]})
+	case v.Kind() == reflect.Ptr || v.Kind() == reflect.Interface:
+		if !v.IsNil() {
+			timesOf(v.Elem(), out)
+		}
+	case v.Kind() == reflect.Struct:
+		for i := 0; i < v.NumField(); i++ {
+			if v.Type().Field(i).PkgPath == "" && v.Type().Field(i).Tag.Get("json") != "-" {
+				timesOf(v.Field(i), out)
+			}
+		}
+	case v.Kind() == reflect.Slice && v.Type().Elem().Kind() != reflect.Uint8:
+		for i := 0; i < v.Len(); i++ {
+			timesOf(v.Index(i), out)
+		}
+	}
+}
+
 func (c *ctx) structEvent(name string, exact bool) (M, error) {
 	p := structMakers[name]()
 	c.fill(reflect.ValueOf(p).Elem(), exact)
@@ -435,6 +459,11 @@ func (c *ctx) structEvent(name string, exact bool) (M, error) {
 			return nil, err
 		}
 		ev["back"] = d2
+		// the timestamps of the value that was sent and of the value that arrived (to one second)
+		t1, t2 := []interface{}{}, []interface{}{}
+		timesOf(reflect.ValueOf(p).Elem(), &t1)
+		timesOf(reflect.ValueOf(q).Elem(), &t2)
+		ev["times"], ev["backtimes"] = t1, t2
 	}
 	return ev, nil
 }
